@@ -875,6 +875,16 @@ pub fn run_c17(ctx: &Ctx, pool: &[PoolKey]) {
 				if !diffs.is_empty() {
 					ctx.violation(&format!("c17:reissue-differs:{}", diffs.join("+")), &case, &text, &format!("fields differing after import + re-issue: {:?}", diffs));
 				}
+				// a second trip: importing the re-issued certificate recovers the same parameters again
+				match CertificateParams::from_ca_cert_der(again.der()) {
+					Ok(imp2) => {
+						ctx.count("eval:second_import");
+						if imp2 != imp {
+							ctx.violation("c17:second-import-differs", &case, &text, &format!("first import {:?}\nsecond import {:?}", imp, imp2));
+						}
+					},
+					Err(e) => ctx.violation("c17:second-import-refused", &case, &text, &e.to_string()),
+				}
 				Ok(())
 			});
 			match r {
